@@ -388,6 +388,8 @@ fn make_vector<R: RealNumberInternalTrait>(
         return error!(LogicError::NegativeLength);
     }
     let fill = iter.next().unwrap();
+    #[cfg(ruschm_verif)]
+    crate::verif_hooks::alloc(k as usize)?;
     Ok(Value::Vector(ValueReference::new_mutable(vec![
         fill;
         k as usize
